@@ -106,7 +106,17 @@ func zzKeyB64(kind string, id int) string {
 func ZZC20Seal() {
 	ans := zzAnswers[zzChoice("msg", len(zzAnswers))]
 	pub, priv, otherPriv := zzKeyB64("pub", 1), zzKeyB64("priv", 1), zzKeyB64("priv", 2)
-	f := &questionFrontmatter{Type: "question", AnswerType: "text", Answer: ans}
+	// every answer type; for the choice types also answers that are not in canonical form:
+	// Seal / Unseal must give back the text as it was written
+	at := []answerType{"text", "multiple-choice", "single-choice"}[zzChoice("atype", 3)]
+	if at != "text" {
+		choiceTexts := []string{"a", "b, c", "a,c,d", "a ,  d", "C", " b", "d,a"}
+		if at == "single-choice" {
+			choiceTexts = []string{"a", "C", " b", "d "}
+		}
+		ans = choiceTexts[zzChoice("choicetext", len(choiceTexts))]
+	}
+	f := &questionFrontmatter{Type: "question", AnswerType: at, Answer: ans}
 	err := f.Seal(pub)
 	if ans == "" {
 		zzAssert(err != nil, "C20 seal: an empty answer cannot be sealed")
@@ -129,6 +139,9 @@ func ZZC20Seal() {
 		zzAssert(f.SealedAnswer == sealed && f.Answer == "", "C20 seal: a failed Unseal leaves the front matter unchanged")
 		zzReach("wrongkey")
 	case 2:
+		if at != "text" {
+			zzAssume(false) // getAnswer parses choice answers: C20Verify's subject
+		}
 		a, err := f.getAnswer(priv)
 		zzAssert(err == nil && a.Text == ans, "C20 seal: getAnswer with the private key returns the sealed text")
 		_, err = f.getAnswer("")
@@ -193,6 +206,35 @@ func ZZC20Verify() {
 		zzReach("verify-ok")
 	} else {
 		zzReach("verify-rejects")
+	}
+	zzWitness("end")
+}
+
+
+// ZZC20Text: a text question is verified exactly when the marked answer text
+// equals the question's output (surrounding white space aside): a different
+// line, a missing line, extra lines, a proper prefix or the empty text are
+// all rejected.
+func ZZC20Text() {
+	outs := []string{"one\n", "one\ntwo\n", "one\n\ntwo\n", "x\n"}
+	q := outs[zzChoice("question", len(outs))]
+	cands := []string{q, strings.TrimSpace(q), "  " + q + "\n", q + "extra\n", q + "\nextra\n", "extra\n" + q, "one\n", "one\ntwo\nthree\n", "two\n", "one\ntwo", "", "one", "on", "one\n\n\ntwo\n"}
+	a := cands[zzChoice("answer", len(cands))]
+	if strings.TrimSpace(a) == "" {
+		zzAssume(false) // an empty answer is refused earlier, by the front-matter validation
+	}
+	m := &QuestionModel{
+		configurableModel: &configurableModel{filename: "q.md"},
+		Frontmatter:       &questionFrontmatter{Type: "question", AnswerType: "text", Answer: a},
+		Question:          zzRend{q},
+	}
+	err := m.Verify()
+	want := strings.TrimSpace(a) == strings.TrimSpace(q)
+	zzAssert((err == nil) == want, "C20 text: a text question is accepted exactly when the answer text equals the question's output")
+	if err == nil {
+		zzReach("text-ok")
+	} else {
+		zzReach("text-rejects")
 	}
 	zzWitness("end")
 }
